@@ -400,11 +400,15 @@ package client
 //@ func (*permissionMap).addrs
 //@   requires m != nil && !held(m.mutex) && (forall k :: haskey(m.permMap, k) ==> valat(m.permMap, k) != nil)
 //@   ensures res != nil && fresh(base(res)) && len(res) >= 0
+//@   ensures [C14:every-entry-listed] (exists k :: haskey(m.permMap, k)) ==> len(res) > 0
 //@   pure
+//@   loop 0 invariant forall k :: seenkey(k) && haskey(m.permMap, k) ==> len(addrs) > 0
 //@   loop 0 invariant m != nil && rheld(m.mutex) && addrs != nil && fresh(base(addrs)) && (forall k :: haskey(m.permMap, k) ==> valat(m.permMap, k) != nil)
 
 //@ func (*allocation).refreshPermissions
 //@   requires a != nil && a.log != nil && a.client != nil && a.permMap != nil && !held(a.mutex) && !rheld(a.mutex) && !held(a.permMap.mutex) && !rheld(a.permMap.mutex) && (forall k :: haskey(a.permMap.permMap, k) ==> valat(a.permMap.permMap, k) != nil)
+//@   fresh cpOK
+//@   ensures [C14:refresh-asks-for-the-listed-peers] res == nil && (exists k :: haskey(a.permMap.permMap, k)) ==> cpOK
 //@   ensures [C14:stale-nonce-adopts-server-nonce] res == errTryAgain ==> (hasAttr(lastResponse, stun.AttrNonce) ==> strOf(a._nonce) == attrText(lastResponse, stun.AttrNonce))
 //@   assigns a._nonce, lastResponse, cpOK
 
